@@ -25,6 +25,23 @@ def header_lit(fmt, ver, idst):
     return "{| h_format := %s; h_version := %s; h_id := %s |}" % (f, v, IDS[idst])
 
 
+def gate(mode, fmt, ver, idst, lib):
+    """the gating clause of the property, read off its text (no model, no translated constant): None = not decided here
+    (malformed version), True = must open, False = must be refused"""
+    if mode == "w":
+        return None
+    if fmt != "nix":
+        return False
+    if not isinstance(ver, list) or len(ver) != 3:
+        return None
+    needs_id = tuple(ver) >= (1, 2, 0)
+    if mode == "a":
+        ok = ver == list(lib)
+    else:
+        ok = ver[0] == lib[0] and ver[1] <= lib[1]
+    return ok and (idst == "valid" or not needs_id)
+
+
 def run(ctx):
     rnd = random.Random(ctx.seed)
     thorough = ctx.tier == "thorough"
@@ -84,6 +101,10 @@ def run(ctx):
         o = r["outcome"]
         if o not in OUT:
             failures.append(("open", inp, r))
+            continue
+        g = gate(mode, fmt, ver, idst, lib)
+        if g is not None and g != (o == "opened"):
+            failures.append(("a file that must be refused was opened" if not g else "a file that must open was refused", inp, r))
             continue
         terms.append("(%s, %s, %s)" % (MODE[mode], header_lit(fmt, ver, idst), OUT[o]))
         inputs.append(inp)
